@@ -66,14 +66,14 @@ func (r *RelationTuple) FromProto(proto *rts.RelationTuple) *RelationTuple {
 		Object:    proto.Object,
 		Relation:  proto.Relation,
 	}
-	switch subject := proto.Subject.Ref.(type) {
+	switch subject := proto.GetSubject().GetRef().(type) {
 	case *rts.Subject_Id:
 		r.SubjectID = pointerx.Ptr(subject.Id)
 	case *rts.Subject_Set:
 		r.SubjectSet = &SubjectSet{
-			Namespace: subject.Set.Namespace,
-			Object:    subject.Set.Object,
-			Relation:  subject.Set.Relation,
+			Namespace: subject.Set.GetNamespace(),
+			Object:    subject.Set.GetObject(),
+			Relation:  subject.Set.GetRelation(),
 		}
 	}
 
